@@ -530,6 +530,7 @@ func (x *Explorer) globalLoad(st *State, g *ssa.Global, loaded Val) Val {
 		x.assumed["global error sentinel is immutable and non-nil: "+name]++
 		id := IntLit(x.eng.strID("sentinel:" + name))
 		st.addFact(Select(UF("errset", ArrSort(SBool), id), id))
+		st.addFact(Select(UF("msgset", ArrSort(SBool), id), UF("errmsg", SInt, id))) // a message contains itself
 		return VIface{Tag: IntLit(x.eng.typeID(types.NewPointer(t)) + 900000), Val: id}
 	}
 	return loaded
@@ -1186,7 +1187,11 @@ func (x *Explorer) chanExprName(f *Frame, v ssa.Value) string {
 		return x.chanExprName(f, c.X)
 	case *ssa.FieldAddr:
 		st := c.X.Type().Underlying().(*types.Pointer).Elem().Underlying().(*types.Struct)
-		return st.Field(c.Field).Name()
+		n := st.Field(c.Field).Name()
+		if n == "C" { // timer / ticker channel: qualify with the variable holding the timer
+			return valueName(c.X) + ".C"
+		}
+		return n
 	case *ssa.Alloc:
 		return c.Comment
 	case *ssa.Parameter:
